@@ -301,7 +301,10 @@ impl Directive {
                     if let Operand::S(include) = &values[0] {
                         let path = PathBuf::from(include);
                         let path = if path.is_relative() {
-                            let mut current_path = current_path.parent().unwrap().to_path_buf();
+                            let mut current_path = match current_path.parent() {
+                                Some(parent) => parent.to_path_buf(),
+                                None => PathBuf::new(),
+                            };
                             current_path.push(path);
                             current_path
                         } else {
